@@ -38,7 +38,7 @@ Witness(lc) == CASE lc = "word" -> "abc"      [] lc = "int" -> "57"        [] lc
                  [] lc = "empty" -> ""        [] lc = "http" -> "http://example.org/u0"                [] lc = "urn" -> "urn:x:1"
                  [] lc = "date" -> "2020-01-02" [] lc = "spaced" -> "a b"  [] lc = "langlike" -> "x@en" [] lc = "hashy" -> "a#b"
                  [] lc = "dt_like" -> "v^^xsd:int"
-Decls == {"plain", "lang", "integer", "decimal", "double", "float", "boolean", "date", "custom"}
+Decls == {"plain", "lang", "integer", "decimal", "double", "float", "boolean", "date", "anyURI", "custom"}
 DeclType(d) == CASE d = "plain" -> XSD_STRING [] d = "lang" -> LANG_STRING [] d = "custom" -> DT_CUSTOM [] OTHER -> XSD \o d
 \* legal lexical forms of the XSD kinds (the free kinds take anything)
 Integers_ == {"int", "sint", "nint", "zeros"}
@@ -49,6 +49,7 @@ WellTyped(lc, d) == CASE d \in {"plain", "lang", "custom"} -> TRUE
                       [] d = "float" -> lc \in {"int", "dec", "exp", "decexp"}
                       [] d = "boolean" -> lc = "bool"
                       [] d = "date" -> lc = "date"
+                      [] d = "anyURI" -> lc \in {"http", "urn"}         \* a link written as a typed literal is a literal
 \* Turtle shorthand: the unquoted token IS a typed literal
 ShorthandDecl(lc) == CASE lc \in Integers_ -> "integer" [] lc = "dec" -> "decimal" [] lc \in {"exp", "decexp"} -> "double"
                        [] lc = "bool" -> "boolean" [] OTHER -> "none"
